@@ -308,6 +308,18 @@ def prop_run(case):
             bad.append(("mb_SM5_DRbar", "differs from the independent implementation", mb5, float(ref)))
         if "arning" in log5:
             label("warning-although-bracketed")
+    # history: the same alpha_s(MZ) with a different MZ evaluated right afterwards (a scan over MZ at fixed alpha_s):
+    # the result must not remember the Lambda_QCD of the previous call
+    mz2 = c["mz"] * (1.07 if c["k"] < 10 else 0.93)
+    if not landau(c["mb"], c["as"], mz2) and not lp6 and not lp5:
+        ref5b = mb_sm5_reference(c["mb"], c["as"], mz2)
+        got5b, _ = mf("mb_SM5_DRbar", c["mb"], c["as"], mz2)
+        if ref5b is not None and isinstance(got5b, float) and math.isfinite(got5b) and abs(mp.mpf(got5b) - ref5b) > mp.mpf("1e-8") * ref5b:
+            bad.append(("mb_SM5_DRbar", "depends on the call before (same alpha_s, other scale)", mz2, got5b, float(ref5b)))
+        ref6b = mb_sm6_reference(c["mb"], c["mt"], c["as"], mz2, q)
+        got6b, _ = mf("mb_SM6", c["mb"], c["mt"], c["as"], mz2, q)
+        if ref6b is not None and isinstance(got6b, float) and math.isfinite(got6b) and abs(mp.mpf(got6b) - ref6b[0]) > mp.mpf("1e-8") * ref6b[0]:
+            bad.append(("mb_SM6", "depends on the call before (same alpha_s, other MZ)", mz2, got6b, float(ref6b[0])))
     if bad:
         return Fail("running masses misbehave", problems=bad[:6], input=c)
     return None
